@@ -276,11 +276,13 @@ fn judge_text(c: &Case, text: String, budget: usize, l: &mut Local) {
 fn relative_cases() -> Vec<(Case, String)> {
     let mut out = vec![];
     let m = |k: u8| Item::Marker(k);
+    for depth2 in [false, true] {
+    let pre = if depth2 { "config.grp" } else { "config" };
     let conds: Vec<(&str, E)> = vec![
-        ("stride", eq(v("config.stride"), int(4))),
-        ("wide", v("config.wide")),
-        ("not-wide", not(v("config.wide"))),
-        ("stride-and-twin", and(eq(v("config.stride"), int(4)), v("wide"))),
+        ("stride", eq(v(&format!("{}.stride", pre)), int(4))),
+        ("wide", v(&format!("{}.wide", pre))),
+        ("not-wide", not(v(&format!("{}.wide", pre)))),
+        ("stride-and-twin", and(eq(v(&format!("{}.stride", pre)), int(4)), v("wide"))),
     ];
     for twin in 0..5usize {
         // 0 none, 1 `wide = false` first, 2 `wide = true` first, 3 `wide = false` last, 4 `wide = true` last
@@ -303,19 +305,22 @@ fn relative_cases() -> Vec<(Case, String)> {
                                     }
                                     prog.push(m(0x10));
                                     prog.push(if parent_is_label { label("config") } else { konst("config", int(1)) });
-                                    prog.push(Item::Sub("config".into(), "wide".into(), E::Bool(sub_wide)));
-                                    prog.push(Item::Sub("config".into(), "stride".into(), E::Tern(Box::new(v("config.wide")), Box::new(int(4)), Box::new(int(2)))));
+                                    if depth2 {
+                                        prog.push(Item::Sub("config".into(), "grp".into(), int(1)));
+                                    }
+                                    prog.push(Item::Sub(pre.into(), "wide".into(), E::Bool(sub_wide)));
+                                    prog.push(Item::Sub(pre.into(), "stride".into(), E::Tern(Box::new(v(&format!("{}.wide", pre))), Box::new(int(4)), Box::new(int(2)))));
                                     if away {
                                         prog.push(label("other"));
                                     }
                                     prog.push(Item::If(vec![(cond.clone(), vec![m(0x44)])], Some(vec![m(0x22)])));
-                                    prog.push(usen("config.stride"));
+                                    prog.push(usen(&format!("{}.stride", pre)));
                                     if twin == 3 || twin == 4 {
                                         prog.push(konst("wide", E::Bool(twin == 4)));
                                     }
                                     let defines: Vec<(String, DV)> = match define {
                                         0 => vec![],
-                                        1 => vec![("config.wide".to_string(), DV::Bool(!sub_wide))],
+                                        1 => vec![(format!("{}.wide", pre), DV::Bool(!sub_wide))],
                                         _ => {
                                             if twin == 0 {
                                                 continue;
@@ -326,11 +331,14 @@ fn relative_cases() -> Vec<(Case, String)> {
                                     // the text: relative spellings where the writer is inside `config`
                                     let mut text = String::new();
                                     for line in text_of(&prog).lines() {
-                                        let t = if (rel_const && line.starts_with(".stride")) || (rel_cond && line.starts_with("#if")) { line.replace("config.", ".") } else { line.to_string() };
+                                        // children of `config.grp` are declared and referred to with two dots
+                                        let (full, dots) = if depth2 { ("config.grp.", "..") } else { ("config.", ".") };
+                                        let line = if depth2 && (line.starts_with(".wide") || line.starts_with(".stride")) { format!(".{}", line) } else { line.to_string() };
+                                        let t = if (rel_const && line.starts_with(&format!("{}stride", dots))) || (rel_cond && line.starts_with("#if")) { line.replace(full, dots) } else { line.to_string() };
                                         text += &t;
                                         text.push('\n');
                                     }
-                                    let coord = format!("twin{} parent_label{} sub_wide{} cond-{} away{} rel_const{} rel_cond{} define{}", twin, parent_is_label, sub_wide, cname, away, rel_const, rel_cond, define);
+                                    let coord = format!("depth2-{} twin{} parent_label{} sub_wide{} cond-{} away{} rel_const{} rel_cond{} define{}", depth2, twin, parent_is_label, sub_wide, cname, away, rel_const, rel_cond, define);
                                     out.push((Case { family: "relative", coord, prog, defines }, text));
                                 }
                             }
@@ -339,6 +347,7 @@ fn relative_cases() -> Vec<(Case, String)> {
                 }
             }
         }
+    }
     }
     out
 }
